@@ -145,6 +145,38 @@ theorem C04_s3_upload_ok_means_stored (main : Call) (started reported : Option C
     | some h => exact (hall _).2 (.inr ⟨h, hrep h rfl, hh h (hrep h rfl) hok⟩)
   simp [heldAfter, hst]
 
+/-- **The acceptor refuses nothing the code can do.** Under the two SDK assumptions every return value of the hedged
+    upload is `admissible` for the requests the server saw — so a driver mismatch on this engine means the decision in
+    `Upload` changed (or the SDK assumptions do not hold), never that the schedule was unlucky. -/
+theorem C04_s3_upload_is_admissible (main : Call) (started reported : Option Call) (all : List Req) (cancelled : Bool)
+    (hm : main.Honest) (hh : ∀ h, started = some h → h.Honest)
+    (fm : main.Faithful cancelled) (fh : ∀ h, started = some h → h.Faithful cancelled)
+    (hrep : ∀ h, reported = some h → started = some h)
+    (hall : IsAllReqs main started all) :
+    admissible all cancelled (uploadOk main reported) = true := by
+  cases hok : uploadOk main reported with
+  | true =>
+    have hst : Req.stored ∈ all := by
+      cases reported with
+      | none => exact (hall _).2 (.inl (hm hok))
+      | some h => exact (hall _).2 (.inr ⟨h, hrep h rfl, hh h (hrep h rfl) hok⟩)
+    simp [admissible, hst]
+  | false =>
+    have hbad : cancelled = true ∨ ∃ r ∈ all, r ≠ Req.stored := by
+      cases reported with
+      | none =>
+        rcases fm hok with hc | ⟨r, hr, hne⟩
+        · exact .inl hc
+        · exact .inr ⟨r, (hall r).2 (.inl hr), hne⟩
+      | some h =>
+        rcases fh h (hrep h rfl) hok with hc | ⟨r, hr, hne⟩
+        · exact .inl hc
+        · exact .inr ⟨r, (hall r).2 (.inr ⟨h, hrep h rfl, hr⟩), hne⟩
+    rcases hbad with hc | ⟨r, hr, hne⟩
+    · simp [admissible, hc]
+    · have : all.any (fun x => x != Req.stored) = true := List.any_eq_true.2 ⟨r, hr, by simpa using hne⟩
+      simp [admissible, this]
+
 /-- the observable form the driver evaluates: an admissible nil return leaves the data in the bucket -/
 theorem C04_s3_admissible_ok_stored (reqs : List Req) (cancelled pre : Bool)
     (h : admissible reqs cancelled true = true) : heldAfter pre reqs = .data := by
